@@ -210,6 +210,22 @@ theorem C03_metrics_running (c : Cfg) (evs : List Ev) (s : St) (hrun : run c (in
     s.request = s.fired + s.pcs.count .firing ∧ s.response + s.pcs.count .shot = s.fired :=
   (reach_invA hrun).metrics
 
+/-- an engine with several pools: its Request / Response counters are shared by the pools and only ever incremented
+(atomically) by them, so their values are the sums over the pools — and equal the shots fired by all pools together
+once every pool has ended -/
+theorem C03_metrics_engine (pools : List (Cfg × List Ev × St))
+    (h : ∀ p ∈ pools, run p.1 (init p.1) p.2.1 = some p.2.2 ∧ p.2.2.terminal = true) :
+    (pools.map fun p => p.2.2.request).sum = (pools.map fun p => p.2.2.fired).sum ∧
+    (pools.map fun p => p.2.2.response).sum = (pools.map fun p => p.2.2.fired).sum := by
+  induction pools with
+  | nil => simp
+  | cons p ps ih =>
+    have hp := h p (List.mem_cons_self ..)
+    have := C03_metrics p.1 p.2.1 p.2.2 hp.1 hp.2
+    have ih' := ih (fun q hq => h q (List.mem_cons_of_mem _ hq))
+    simp only [List.map_cons, List.sum_cons]
+    omega
+
 /-- with discard_overflow off nothing is ever discarded -/
 theorem C03_discard_off (c : Cfg) (evs : List Ev) (s : St) (hoff : c.discardOn = false)
     (hrun : run c (init c) evs = some s) : s.discarded = 0 := (reach_invA hrun).discOff hoff
